@@ -214,6 +214,31 @@ theorem mutate_original_invisible {t : List Row} {ifaces} (hT : tableOK t ifaces
   have sp := cloneAddr_spec t fuel via h a h' a' q hwf hc
   exact frame sp.wf sp.hi (fun x hx hx' => clone_disjoint hT hwf hc x hx' hx) hconf
 
+/-- **Any interleaving of changes to both sides.** `a` and `b` reach disjoint parts of a
+well-formed heap; the two sides take turns, in any order and for any number of steps, each
+overwriting fields of its own cells (with values, nils, references to its own cells) and
+allocating new cells.  Then what `a` unfolds to at the end is exactly what it would unfold to had
+only its own writes happened (`projLeft` drops the other side's writes, keeping a placeholder for
+each of its allocations so that addresses stay comparable): the other side's history is invisible. -/
+theorem interleaved_invisible {h : Heap} (hwf : WF h) {a b : Nat} (ha : a < h.length) (hb : b < h.length)
+    (hdis : ∀ x, Reach h a x → ¬ Reach h b x) {ws : List (Bool × Write)}
+    (hconf : Confined2 (Reach h a) (Reach h b) h ws) :
+    ∀ n, unfold n (applyAll h (ws.map Prod.snd)) a = unfold n (applyAll h (projLeft ws)) a := by
+  intro n
+  obtain ⟨A', hsub, hcells, hcl⟩ := interleaved_left ws (Reach h a) (Reach h b) h h rfl (fun _ _ => rfl)
+    (fun x hx => hx.lt_length hwf ha) (fun x hx => hx.lt_length hwf hb) hdis
+    (fun x c hx hc r hr => hx.trans (.step hc hr (.refl r))) hconf
+  exact unfold_of_cells_eq (B := A') hcl hcells n a (hsub a (.refl a))
+
+/-- The same for the other side. -/
+theorem interleaved_invisible_right {h : Heap} (hwf : WF h) {a b : Nat} (ha : a < h.length) (hb : b < h.length)
+    (hdis : ∀ x, Reach h a x → ¬ Reach h b x) {ws : List (Bool × Write)}
+    (hconf : Confined2 (Reach h a) (Reach h b) h ws) :
+    ∀ n, unfold n (applyAll h (ws.map Prod.snd)) b = unfold n (applyAll h (projLeft (swapSides ws))) b := by
+  intro n
+  have := interleaved_invisible hwf hb ha (fun x hx hx' => hdis x hx' hx) (Confined2.swap ws _ _ h hconf) n
+  rwa [swapSides_snd] at this
+
 /-- The generated table: clones made by the routines of /repo are disjoint from their original and
 (when no empty regex literal hangs off a measurement) unfold to the same tree. -/
 theorem gen_clone_faithful_disjoint {fuel via : Nat} {h h' : Heap} {a a' : Nat} {q : Bool}
